@@ -195,7 +195,7 @@ func VerifC08_Trees() {
 	var text string
 	tU := `"` + c + `"`
 	nullableRoot := false
-	switch zzverif.IntRange("shape", 0, 10) {
+	switch zzverif.IntRange("shape", 0, 14) {
 	case 0:
 		text = "{\n  \"a\": " + d + ", // {min: " + e + "}\n  \"b\": \"" + c + "\", // {optional: true}\n  \"c\": [" + d + ", \"" + c + "\"]\n}"
 	case 1:
@@ -213,6 +213,16 @@ func VerifC08_Trees() {
 	case 9:
 		text = `@t // {nullable: true}`
 		nullableRoot = true
+	case 12: // two alternatives of the SAME type: both must survive in anyOf
+		text = d + ` // {or: [{type: "integer", max: ` + e + `}, {type: "integer", min: ` + e + `}]}`
+	case 13: // a null example under an `or` rule
+		text = []string{`null // {or: ["null", "@t"]}`, `null // {or: [{type: "null"}, {type: "string"}]}`, `{"n": null} // {or: [{type: "object"}, {type: "null"}]}`}[zzverif.IntRange("nullOr", 0, 2)]
+	case 14: // a key shortcut whose type is an alias of, or a choice between, string types
+		text = `{@u: ` + d + `}`
+		tU = []string{`@s`, `@s | @s2`}[zzverif.IntRange("keyAlias", 0, 1)]
+	case 11: // a key shortcut whose type is a string with escapes at its ends
+		text = `{@u: ` + d + `}`
+		tU = []string{`"ab\""`, `"\"ab"`, `"a\\"`, `"\u0041\n"`, `"` + c + `\/"`}[zzverif.IntRange("keyType", 0, 4)]
 	case 10: // QUOTED keys that look like type names are ordinary members
 		text = `{"@t": ` + d + `, "@": "` + c + `", "z": {"@u": true}}`
 	case 5:
@@ -240,6 +250,12 @@ func VerifC08_Trees() {
 	s := jschema.New("root", text)
 	tt := jschema.New("@t", tA)
 	tu := jschema.New("@u", tU)
+	ts := jschema.New("@s", `"str"`)
+	ts2 := jschema.New("@s2", `"zz"`)
+	_ = s.AddType("@s", ts)
+	_ = s.AddType("@s2", ts2)
+	_ = tu.AddType("@s", ts) // @u may itself refer to @s / @s2
+	_ = tu.AddType("@s2", ts2)
 	_ = s.AddType("@t", tt)
 	_ = s.AddType("@u", tu)
 	if s.Check() != nil {
@@ -257,7 +273,9 @@ func VerifC08_Trees() {
 	ast, _ := s.GetAST()
 	astT, _ := tt.GetAST()
 	astU, _ := tu.GetAST()
-	types := map[string]Node{"@t": newNode(astT), "@u": newNode(astU)}
+	astS, _ := ts.GetAST()
+	astS2, _ := ts2.GetAST()
+	types := map[string]Node{"@t": newNode(astT), "@u": newNode(astU), "@s": newNode(astS), "@s2": newNode(astS2)}
 	zzverif.Assert(oValidNode(newNode(ast), v, types, 0), "the example is a valid instance of the generated Schema Object tree")
 	if nullableRoot {
 		// one variation the schema's own rules accept: null for a nullable root
